@@ -511,14 +511,12 @@ uint64_t mix(uint64_t a, uint64_t b)
 std::vector<uint8_t> missing_pattern(gen_t& g, tensor_size_t rows, int& pattern)
 {
     std::vector<uint8_t> p(static_cast<size_t>(rows), 1U);
-    pattern = static_cast<int>(g.rng.range(0, 9));
+    const auto k = g.rng.range(0, 19);
+    pattern      = k < 9 ? 0 : k < 11 ? 4 : k < 13 ? 5 : k < 15 ? 6 : k < 17 ? 7 : k < 18 ? 8 : 9;
     int pct = 0;
     switch (pattern)
     {
-    case 0:
-    case 1:
-    case 2:
-    case 3: pct = 0; break;
+    case 0: pct = 0; break;
     case 4: pct = 10; break;
     case 5: pct = 30; break;
     case 6: pct = 60; break;
@@ -544,8 +542,10 @@ case_t make_case(gen_t& g, bool thorough, std::string& kinds)
     for (int64_t f = 0; f < nf; ++f)
     {
         feat_t ft;
-        const auto kd = g.rng.range(0, 19);
-        ft.kind       = kd < 9 ? k_scalar : kd < 14 ? k_sclass : kd < 19 ? k_mclass : k_struct;
+        auto kd = g.rng.range(0, 19);
+        if (nf >= 2 && f == 0 && g.coin(80)) kd = 0;                       // mostly: at least one scalar ...
+        if (nf >= 2 && f == 1 && g.coin(80)) kd = g.rng.range(9, 18);      // ... and one categorical feature
+        ft.kind = kd < 9 ? k_scalar : kd < 14 ? k_sclass : kd < 19 ? k_mclass : k_struct;
         int pattern   = 0;
         ft.present    = missing_pattern(g, c.rows, pattern);
         const auto us = static_cast<size_t>(c.rows);
@@ -815,6 +815,11 @@ void check_consistency(gen_t& g, const ctx_t& x, const std::string& name, const 
             fail("split", tag, "unselected sample " + std::to_string(s) + " assigned to group " + std::to_string(cluster.group(s)));
             break;
         }
+    }
+    if (table_like(w) && cluster.groups() != ntables)
+    {
+        // dtree_wlearner_t::do_split builds cluster_t(samples, m_tables.size()): the element count, not the number of tables
+        obs("groups-vs-tables", tag, "split().groups()=" + std::to_string(cluster.groups()) + " tables=" + std::to_string(ntables) + " outputs=" + std::to_string(no));
     }
     const auto feats = w.features();
     for (tensor_size_t i = 0; i < n; ++i)
@@ -1342,6 +1347,19 @@ void run_case(uint64_t seed, long icase, bool thorough)
                 w->predict(dataset, samples, before.tensor());
                 const auto p = w->predict(dataset, samples);
                 for (tensor_size_t i = 0; i < p.size(); ++i) mag.data()[i] += std::fabs(p.data()[i]);
+                if (!table_like(*w))
+                {
+                    // w * x + b may cancel: the rounding is relative to the summed terms
+                    const auto* t  = tables_of(*w);
+                    const auto  cf = x.dfeat[static_cast<size_t>(w->features()(0))];
+                    for (tensor_size_t i = 0; i < n; ++i)
+                    {
+                        const auto s = static_cast<size_t>(samples(i));
+                        if (x.c->feats[static_cast<size_t>(cf)].present[s] == 0U) continue;
+                        const auto xv = x.c->feats[static_cast<size_t>(cf)].sval[s];
+                        for (tensor_size_t o = 0; o < no; ++o) mag.data()[i * no + o] += std::fabs(t->data()[o] * xv) + std::fabs(t->data()[no + o]);
+                    }
+                }
                 ws_before += (ws_before.empty() ? "" : ";") + wstr(*w);
             }
             auto merged = ::nano::wlearner::clone(list);
